@@ -170,6 +170,21 @@ def proc (env : Env) (m : Mode) : Schema → Option String → Child
       match c.accept v with
       | none => (d, emit st (coerceIssue env ps "custom"))
       | some x => run x
+  | .pre ps inner, tag, path, v, d, st =>
+    let p := render path
+    match m with
+    | .parse =>
+      if ps.accept v then
+        let st1 : St := { st with log := st.log ++ [⟨.pre, ps.id, p, .custom v⟩] }
+        match ps.run v with
+        | (_, some e) => (d, emit st1 (issueOfPostErr env p inner.dtype e))
+        | (v', none) => proc env m inner tag path v' d st1
+      else (d, emit st (coerceIssue env p inner.dtype))
+    | .validate =>
+      let st1 : St := { st with log := st.log ++ [⟨.pre, ps.id, p, d⟩] }
+      match ps.runD d with
+      | (_, some msg) => (d, emit st1 (preErrIssue env p inner.dtype msg))
+      | (d', none) => proc env m inner tag path v d' st1
 def procKey (env : Env) (m : Mode) :
     Fields → String → Option String → Prov → List String → DVal → St → Out
   | .nil, _, _, _, _, d, st => (d, st)
